@@ -410,10 +410,20 @@ Proof.
   destruct (atoi p); [|apply clean_err]. apply clean_obind; [exact IH|]. intros; apply clean_ok.
 Qed.
 
-Lemma jsonl_index_clean b params rows : clean (jsonl_index b params rows).
+Lemma table_cols_clean names rows : clean (table_cols names rows).
 Proof.
-  unfold jsonl_index. destruct (forallb all_digits params); [|apply clean_ok].
-  apply clean_obind; [apply jsonl_line_numbers_clean|]. intros; apply clean_ok.
+  unfold table_cols. destruct rows as [|h rest]; [apply clean_ok|].
+  destruct (table_data _ rest) as [d bad]. destruct bad; [apply clean_err|apply clean_ok].
+Qed.
+
+Lemma jsonl_index_clean b0 params rows : clean (jsonl_index b0 params rows).
+Proof.
+  unfold jsonl_index. destruct (forallb all_digits params).
+  - apply clean_obind; [apply jsonl_line_numbers_clean|]. intros; apply clean_ok.
+  - destruct (b0 || existsb special_param params); [apply clean_ok|].
+    destruct rows as [|r rows']; [apply clean_ok|].
+    destruct (existsb is_arr (r :: rows')); [|apply clean_err].
+    destruct (table_rows (r :: rows')); [apply table_cols_clean|apply clean_ok].
 Qed.
 
 Lemma render_elem_clean json v : clean (render_elem json v).
@@ -575,6 +585,47 @@ Proof. vm_compute. reflexivity. Qed.
 Lemma jsonl_table_element_refuted :
   spec_ok (mk FJsonl OpElem true (JArr [JArr [JNum 1]; JArr [JNum 2]]) [[47%N; 49%N]]) = false.
 Proof. vm_compute. reflexivity. Qed.
+
+(* The three jsonl findings are predicted by the model for every input of their shape. *)
+
+Lemma select_rows_none : forall rows i k, i + zlen rows <= k ->
+  select_rows i (fun j => negb (Bool.eqb (zmem j [k]) false)) rows = [].
+Proof.
+  induction rows as [|r rows IH]; intros i k H; [reflexivity|]. cbn [select_rows].
+  unfold zlen in H. cbn [length] in H.
+  replace (zmem i [k]) with false by (unfold zmem; cbn [existsb]; lia). cbn [Bool.eqb negb].
+  apply IH. unfold zlen. lia.
+Qed.
+
+(* finding 1: a row number past the end selects nothing and is not an error *)
+Theorem jsonl_row_past_end_predicted : forall rows key k,
+  all_digits key = true -> atoi key = Some k -> zlen rows <= k ->
+  jsonl_index false [key] rows = Ok (OutVal (JArr [])).
+Proof.
+  intros rows key k Hd Ha Hk. unfold jsonl_index. cbn [forallb]. rewrite Hd. cbn [andb].
+  cbn [jsonl_line_numbers]. rewrite Ha. cbn [obind]. rewrite select_rows_none by lia. reflexivity.
+Qed.
+
+(* finding 2: a negative number is not all digits, so it is looked up as a column name *)
+Theorem jsonl_negative_is_column_name : forall rows r rest t,
+  rows = r :: rest -> existsb is_arr rows = true -> table_rows rows = Some t ->
+  forall key, special_param (45%N :: key) = false ->
+  jsonl_index false [45%N :: key] rows = table_cols [45%N :: key] t.
+Proof.
+  intros rows r rest t -> Ha Ht key Hs. unfold jsonl_index.
+  replace (forallb all_digits [45%N :: key]) with false by reflexivity.
+  replace (existsb special_param [45%N :: key]) with false by (cbn [existsb]; rewrite Hs; reflexivity).
+  cbn [orb]. rewrite Ha, Ht. reflexivity.
+Qed.
+
+(* finding 3: `[[<sep>key]]` on rows that are all arrays is an error for every key *)
+Theorem jsonl_table_element_predicted : forall rows sep key,
+  forallb is_arr rows = true -> key <> [] -> existsb (N.eqb sep) key = false ->
+  exists e, jsonl_element (sep :: key) rows = Err e.
+Proof.
+  intros rows sep key Ha Hk Hs. unfold jsonl_element. rewrite Ha.
+  rewrite (element_lookup_single _ _ _ Hk Hs). cbn [elem_step]. eexists; reflexivity.
+Qed.
 
 (* the pre-fix itoIndexArray (no `i < 0` test after the adjustment) panics:
    [-5] on three elements reaches v[-2] *)
